@@ -1284,7 +1284,8 @@ func fieldOfValue(v ssa.Value) *types.Var {
 func init() {
 	register(&Rule{Name: "C03.list-complete", Min: 2, Run: c03ListComplete,
 		Doc: "every LIST of the bucket is paged to the end: the loop stops only on the response's IsTruncated / NextContinuationToken, and the next request carries NextContinuationToken"})
-	byProp["C03"] = append(byProp["C03"], "C03.list-complete")
+	byProp["C03"] = append(byProp["C03"], "C03.list-complete", "C05.snapshot")
+	explain["C03"] += " snapshot (shared with C05): after a commit that failed the tree looks clean although nodes were never stored; the rollback SQLite forces must discard it unconditionally, or the next successful commit publishes a version that links missing objects and retires its parent — committed rows disappear for every later opener."
 	byProp["C09"] = append(byProp["C09"], "C03.list-complete")
 	explain["C03"] += " list-complete: S3 answers a LIST with at most one page; an opener that stops after a page sees only some of the current versions (and a writable one commits that partial merge). At every ListObjectsV2 call site the request sits in a loop, the only conditions that end the loop normally are functions of the response's IsTruncated / NextContinuationToken, and the following request's ContinuationToken is the response's NextContinuationToken on every way back to the loop head."
 }
